@@ -138,6 +138,15 @@ def main():
             infos.append({"kind": kind, "a": A, "b": B})
         else:
             l1, l2 = rand_label(rng, idxs), rand_label(rng, idxs)
+            if rng.random() < 0.3:
+                # wide strings with many overlapping qubits (30 .. 130 shared factors): the phase is a product of that many
+                # factors +-i and must still be exactly one of 1, i, -1, -i
+                w = rng.choice([30, 33, 34, 35, 64, 101, 130])
+                q = rng.sample(range(w + 5), w)
+                l1 = [(i, rng.randint(1, 3)) for i in q]
+                shift = rng.choice([1, 2, None])
+                l2 = [(i, (p + shift - 1) % 3 + 1 if shift else rng.randint(1, 3)) for i, p in l1]
+                rng.shuffle(l2)
             lab, ph = pauli_product(PauliLabel(l1), PauliLabel(l2))
             code = {1: 0, 1j: 1, -1: 2, -1j: 3}.get(complex(ph), 9)
             terms.append(f"(let '(l, c) := pprod pauli_products_map {coq_label(l1)} {coq_label(l2)} in enc_c c :: enc_l l)")
